@@ -18,6 +18,13 @@ var (
 
 func bi(x int64) *big.Int { return big.NewInt(x) }
 
+func abs64(x int64) int64 {
+	if x < 0 {
+		return -x
+	}
+	return x
+}
+
 // parseDec parses a decimal literal with at most 18 fractional digits exactly.
 func parseDec(s string) *big.Rat {
 	if i := strings.IndexByte(s, '.'); i >= 0 && len(s)-i-1 > 18 {
@@ -101,10 +108,10 @@ func NewModel(c Config) *Model {
 	}
 	var tot int64
 	for _, w := range c.Records {
-		tot += w
+		tot += abs64(w)
 	}
 	for _, w := range c.Records {
-		m.recRat = append(m.recRat, quoDec(new(big.Rat).SetInt64(w), new(big.Rat).SetInt64(tot)))
+		m.recRat = append(m.recRat, quoDec(new(big.Rat).SetInt64(abs64(w)), new(big.Rat).SetInt64(tot)))
 	}
 	return m
 }
@@ -117,6 +124,8 @@ type Expect struct {
 	// hook): nothing is minted and no state changes. An epoch is refused ONLY in that case; in particular a vesting
 	// balance below the whole provision that still covers the developer share must mint.
 	Refused bool
+	// the community-pool distribution record (gauge id 0) got a zero / a positive share of the pool-incentives balance
+	CPZero, CPPos bool
 	Reduced bool // the provision is multiplied by the factor at this epoch
 	P       *big.Int
 	S, I, D *big.Int
@@ -187,8 +196,15 @@ func (m *Model) Step(n int64) *Expect {
 			sent := new(big.Int).Set(e.PIToCommunity)
 			for i := range c.Records {
 				g := share(asset, m.recRat[i])
+				if c.Records[i] < 0 {
+					e.CPZero, e.CPPos = g.Sign() == 0, g.Sign() > 0
+				}
 				if g.Sign() > 0 {
-					e.Gauges[i] = g
+					if c.Records[i] < 0 { // the community-pool record (gauge id 0)
+						e.PIToCommunity.Add(e.PIToCommunity, g)
+					} else {
+						e.Gauges[i] = g
+					}
 					sent.Add(sent, g)
 				}
 			}
